@@ -4,6 +4,20 @@ import json, os
 ROOT = os.path.dirname(os.path.abspath(__file__))
 
 CLAIMED = {
+ 'C02': dict(
+    category='other',
+    text='Inductive step, bounded-exhaustive by symbolic execution: for each of 10 association shapes (1:M, 1:1, conditional/unconditional, '
+         'with phrases, reflexive 1:1 and 1:M, association class M:M and 1:1 with two formalisations, subtype/supertype sharing the identifier, '
+         'two associations between the same classes) EVERY well-formed link state over small pools (all link matrices within the single-valued '
+         'ends x liveness) and EVERY single call of new/relate/unrelate/delete (both argument orders, wrong phrase, unknown association, None '
+         'operand, unconnected kinds, repeated delete, relate-then-unrelate) is executed on the real xtuml.meta code under CrossHair with the '
+         'identifying values symbolic; verdict "Confirmed over all paths" per (shape, operation). Because rejected calls are shown to leave the '
+         'state unchanged, every reachable state is such a pre-state, so one step covers histories of any length over the pools.',
+    design_ref='DESIGN.md section 5, C02',
+    note='Pools of 2 instances per class (3 in thorough for single-association shapes), one deletable instance per class; pre-states installed '
+         'with Link.connect(check=False) and verified by navigation; use of a deleted instance as relate/unrelate operand is outside the claim; '
+         'Class.__str__ stubbed (message formatting); CrossHair+z3+CPython trusted; relation model in harness/c02_step.py is the oracle.',
+    technique='bounded symbolic execution of the real code (CrossHair + z3), inductive step over all pre-states'),
  'C17': dict(
     category='other',
     text='Inductive step, bounded-exhaustive by symbolic execution: for EVERY duplicate-free ordered-set state over a small universe '
